@@ -191,7 +191,7 @@ pub fn checks() -> Vec<CheckDef> {
             "pair-decoding",
             "generated 65-byte strings lock||secret||index derived from honestly generated pairs: valid; lock / secret / index altered; (secret,index) whose SHA3 digest is not a canonical scalar with lock = digest and lock = digest mod q; lock of another index; random lock; non-canonical secret or lock; random bytes; truncations. Oracle: decode is Ok <=> both scalars canonical and SHA3-256(secret||index) is a canonical scalar encoding equal to the lock (independent reference); every generated or decoded pair satisfies SHA3(revocation_secret().as_bytes()) == revocation_lock().as_bytes() and re-encodes identically; non-trivial = any altered case; distinct by (kind, seed)",
             &["digest-non-canonical/lock=digest/reject", "digest-non-canonical/lock=digest-mod-q/reject", "lock-altered/reject", "valid/accept"],
-            (40_000, 2_000_000),
+            (40_000, 10_000_000),
             strategy,
             oracle,
         ),
